@@ -123,10 +123,11 @@ impl<'a> RequirementsResolver<'a> {
             .map(|(num, _)| -> Result<DwarfRegisterMap, Error> {
                 // try to use the built-in unwinder if the frame is determined
                 let mut registers = RegisterMap::current(ecx.pid_on_focus())?.into();
+                // registers as the caller of this function holds them
                 self.debugee.restore_registers_at_frame(
                     ecx.pid_on_focus(),
                     &mut registers,
-                    num as u32,
+                    num as u32 + 1,
                 )?;
                 Ok(registers)
             })
